@@ -26,6 +26,7 @@ listed as TRUSTED mathematical facts in the evidence, see LEMMA_TEXT):
   modpow_reduce(b, e, m)   m > 0 ==> modpow(b % m, e, m) == modpow(b, e, m)
   pow2_add(a, b)     a, b >= 0 ==> 2**(a + b) == 2**a * 2**b
   mulmod_reduce(a, b, m)   m > 0 ==> ((a % m) * (b % m)) % m == (a * b) % m
+  gcd_lcm_coprime(a, b, e) gcd(a, e) == 1 and gcd(b, e) == 1 ==> gcd(e, lcm(a, b)) == 1
 """
 import z3
 
@@ -217,6 +218,22 @@ def sf_mulmod_reduce(E, st, args, kw):
     return val(st, mk_bool(t))
 
 
+def lcm_term(a, b):
+    ab = a * b
+    return z3.If(z3.Or(a == 0, b == 0), 0, z3.If(ab < 0, -ab, ab) / models.GCD(a, b))
+
+
+def sf_gcd_lcm_coprime(E, st, args, kw):
+    """gcd(a, e) == 1 and gcd(b, e) == 1  ==>  gcd(e, lcm(a, b)) == 1     (lcm(a, b) = |a*b| // gcd(a, b), 0 if a or b is 0)"""
+    _trusted(E, 'gcd(a, e) == 1 and gcd(b, e) == 1 ==> gcd(e, lcm(a, b)) == 1   (a number coprime to two numbers is coprime to their lcm)')
+    a, b, e = (zint(x) for x in args)
+    models.gcd_value(E, st, a, b)
+    t = z3.Implies(z3.And(models.gcd_value(E, st, a, e) == 1, models.gcd_value(E, st, b, e) == 1),
+                   models.gcd_value(E, st, e, lcm_term(a, b)) == 1)
+    st.fact(t)
+    return val(st, mk_bool(t))
+
+
 def sf_modpow_reduce(E, st, args, kw):
     _trusted(E, '(b mod m)**e mod m == b**e mod m for m > 0')
     b, e, m = (zint(a) for a in args)
@@ -365,7 +382,7 @@ def sf_kwargs_only(E, st, args, kw):
 
 
 FORMS = {'ival': sf_ival, 'ipow': sf_ipow, 'modpow': sf_modpow, 'modinv': sf_modinv, 'gcd': sf_gcd, 'bitlen': sf_bitlen,
-         'bitand': sf_bitand, 'bitor': sf_bitor, 'be_cat': sf_be_cat, 'be_split': sf_be_split, 'be_lt': sf_be_lt, 'be_zeros': sf_be_zeros, 'be_lower': sf_be_lower, 'i2osp_be': sf_i2osp_be, 'modpow_reduce': sf_modpow_reduce, 'mulmod_reduce': sf_mulmod_reduce, 'pow2_add': sf_pow2_add,
+         'bitand': sf_bitand, 'bitor': sf_bitor, 'be_cat': sf_be_cat, 'be_split': sf_be_split, 'be_lt': sf_be_lt, 'be_zeros': sf_be_zeros, 'be_lower': sf_be_lower, 'i2osp_be': sf_i2osp_be, 'modpow_reduce': sf_modpow_reduce, 'mulmod_reduce': sf_mulmod_reduce, 'gcd_lcm_coprime': sf_gcd_lcm_coprime, 'pow2_add': sf_pow2_add,
          'lemma': sf_lemma, 'systape': sf_systape, 'tape_of': sf_tape_of, 'tape': sf_tape, 'tapei': sf_tapei, 'kwarg': sf_kwarg, 'kwargs_only': sf_kwargs_only, 'zdiv': sf_zdiv, 'zmod': sf_zmod, 'all_of': sf_all_of, 'any_of': sf_any_of, 'imp': sf_imp}
 for _nm, _fn in FORMS.items():
     interp.SPEC_BUILTINS.setdefault(_nm, BuiltinV('spec.' + _nm, _fn))
